@@ -426,6 +426,70 @@ Definition parseFrom (f : nat) (text : list Z) : res node :=
 Definition fuel_for (s : list Z) : nat := 2 * length s + 4.
 Definition parse (s : list Z) : res node := parseFrom (fuel_for s) (s ++ [0]).
 
+(* ---- the Parser object and the target Element across calls ---------------------------------
+   Xml::Parser keeps a Private object alive between calls: `pos` and the three error fields survive a
+   call; `pos.line`, `pos.pos`, `pos.lineStart` are assigned at the start of parse, `token` before it
+   is read.  The target of parse is an Element the caller owns: parseElement assigns line, column and
+   type, but *adds* to element.attributes (HashMap::append) and element.content (List::append);
+   nested targets are always fresh Elements (a fresh Variant's toElement()). *)
+Record parser : Type := mkParser { o_line : Z; o_err : Z * Z * option emsg }.   (* pos.line; errorLine, errorColumn, errorString *)
+Definition new_parser (garbage : Z) : parser := mkParser garbage (0, 0, None).   (* Private() : errorLine(0), errorColumn(0) *)
+
+Definition attrs_of (n : node) : list (bytes * bytes) := match n with N _ _ _ at_ _ => at_ | _ => [] end.
+Definition content_of (n : node) : list node := match n with N _ _ _ _ ct => ct | _ => [] end.
+
+(* parseElement(element) on a target whose attribute map and content list hold [at0] and [ct0] *)
+Definition parseElementInto (at0 : list (bytes * bytes)) (ct0 : list node) (f : nat) (tp : pos) (p : pos) : res (node * pos) :=
+  match f with
+  | O => Fuel
+  | S f' =>
+    do x <- readToken p;
+    let '(tk, q) := x in
+    match tty tk with
+    | TName =>
+      do y <- parseAttrs (length (rest q)) at0 q;
+      let '(ae, at_, q1) := y in
+      match ae with
+      | AEmpty => Ok (N (line tp) (off tp - ls tp + 1) (tval tk) at_ ct0, q1)
+      | AOpen =>
+        do z <- parseContent f' (rev ct0) q1;
+        let '(ct, q2) := z in
+        do q3 <- closeTag (tval tk) q2;
+        Ok (N (line tp) (off tp - ls tp + 1) (tval tk) at_ ct, q3)
+      end
+    | _ => synAt (tpos tk) EExpTagName
+    end
+  end.
+
+(* Xml::Private::parse(data, element) from line [l0] *)
+Definition parseFromInto (l0 : Z) (at0 : list (bytes * bytes)) (ct0 : list node) (f : nat) (text : list Z) : res node :=
+  do p0 <- skipSpace (mkPos text 0 l0 0);
+  do p1 <- prolog (length text) p0;
+  do x <- readToken p1;
+  let '(tk, q) := x in
+  match tty tk with
+  | TStart => do y <- parseElementInto at0 ct0 f (tpos tk) q; Ok (fst y)
+  | _ => synAt (tpos tk) EExpLt
+  end.
+
+(* one call on an object with history [o] and a target holding [tgt];
+   [clear] = the statement `element.clear();` of repair 07 is present.
+   After the call `pos` is dead (assigned before it is read in the next call): the model keeps 0. *)
+Definition parse_obj (clear : bool) (o : parser) (tgt : node) (s : list Z) : parser * res node :=
+  let o1 := mkParser 1 (o_err o) in                          (* pos.line = 1; pos.pos = pos.lineStart = data; *)
+  let tgt1 := if clear then Nul else tgt in                  (* element.clear();   (repair 07) *)
+  let r := parseFromInto (o_line o1) (attrs_of tgt1) (content_of tgt1) (fuel_for s) (s ++ [0]) in
+  match r with
+  | Syn l c m => (mkParser 0 (l, c, Some m), r)
+  | _ => (mkParser 0 (o_err o1), r)                          (* the error fields keep their old content *)
+  end.
+
+Definition parse_with (o : parser) (tgt : node) (s : list Z) : parser * res node := parse_obj true o tgt s.
+
+(* the static wrappers Xml::parse(data, element): a fresh Private per call *)
+Definition static_parse (garbage : Z) (tgt : node) (s : list Z) : res node :=
+  snd (parse_with (new_parser garbage) tgt s).
+
 (* ---- toString (Xml.cpp:490-534) ------------------------------------------------------------ *)
 
 Definition attr_str (kv : bytes * bytes) : list Z := [32] ++ fst kv ++ [61; 34] ++ escape (snd kv) ++ [34].
